@@ -19,6 +19,7 @@ import (
 const SDL = `
 type Query {
   tracks: [Track]
+  crowd: [Item]
   firstTrack: Track
   items: [Item]
   name: String
@@ -334,6 +335,17 @@ func (q *Query) Search(opts map[string]interface{}) string {
 	return b.String()
 }
 
+// Crowd is a long list of objects (120, a generic list): whatever ggql does to get through long lists faster, the answer is the one a
+// plain walk gives, errors in list order, and one request stays on its goroutine.
+func (q *Query) Crowd() []interface{} {
+	called("Query.Crowd")
+	out := make([]interface{}, 120)
+	for i := range out {
+		out[i] = &Item{ID: fmt.Sprintf("c%d", i), Size: i}
+	}
+	return out
+}
+
 // Shout is a method whose arguments have (non-zero) defaults in the schema. ggql hands a method what the request wrote: an
 // argument the request leaves out reaches the method as the zero value, as it reaches a Resolver as an absent key.
 func (q *Query) Shout(word string, times int) string {
@@ -568,6 +580,7 @@ var Requests = []struct {
 	{`query($o: Opts) { search(opts: $o) }`, map[string]interface{}{"o": map[string]interface{}{"tags": []interface{}{"v"}}}},
 	{`{ searchIn(opts: {text: "q", tags: ["x"]}) }`, nil},
 	{`{ tracks { name title } }`, nil},
+	{`{ crowd { id size label(prefix: "c", upper: false) } }`, nil},
 	{`{ firstTrack { name title length } }`, nil},
 	{`{ tracks { title length } }`, nil},
 	{`{ url shout s3: shout(times: 3) s4: shout(word: "ho") }`, nil},
